@@ -28,7 +28,7 @@ ASSUMPTIONS = [
   "NaN-free inputs; numerical blow-up is not judged here",
   "CPU device",
 ]
-BUDGET = {"quick": dict(examples=160, seconds=200, workers=16), "thorough": dict(examples=6000, seconds=2400, workers=16)}
+BUDGET = {"quick": dict(examples=160, seconds=420, workers=16), "thorough": dict(examples=6000, seconds=2400, workers=16)}
 
 _CALLS = ["step", "step", "forward", "step12", "inverse", "stages", "reset", "reset_mask", "get_data_into", "contact_force", "state_roundtrip", "collision", "sensor"]
 
